@@ -127,11 +127,7 @@ def rule2(ctx, rep):
         r.instance()
         r.check(ex == {1}, f'{put.qname}:appends-exactly-once', where(put), 'exactly one append to _cluster/_cloud on every path', f'_put appends {sorted(ex)} messages depending on the path (expected exactly 1)')
         # dispatch: per job iteration: after the _put calls, do.clear() and _jobs.remove(j) on every normal path
-        loops = [n for n in disp.own_nodes() if isinstance(n, ast.For) and any(shared.resolve_container(prog, disp, x) == 'dawgie.pl.farm._jobs' for x in ast.walk(n.iter) if isinstance(x, (ast.Name, ast.Attribute)))]
-        if len(loops) != 1:
-            raise AnalysisError('farm.dispatch: loop over _jobs not found')
-        loop = loops[0]
-        jv = loop.target.id
+        loop, jv = shared.job_loop(prog, disp)
 
         class It(Flow):
             def on_call(s, call, st):
@@ -148,6 +144,9 @@ def rule2(ctx, rep):
                 if isinstance(call.func, ast.Attribute) and call.func.attr == 'remove' and shared.resolve_container(prog, disp, call.func.value) == 'dawgie.pl.farm._jobs':
                     if call.args and isinstance(call.args[0], ast.Name) and call.args[0].id == jv:
                         return ((put_n, cleared, True),)
+                if isinstance(call.func, ast.Attribute) and call.func.attr in ('pop', 'popleft') and shared.resolve_container(prog, disp, call.func.value) == 'dawgie.pl.farm._jobs':
+                    # the job leaves the batch here (before its messages exist if a _put follows: 'late-put')
+                    return ((put_n, cleared, True),)
                 return (st,)
 
         it = It()
